@@ -46,10 +46,10 @@ fn scenario(lvl: u8) -> (Dispatch, u8) {
     // an earlier collector with arbitrary (possibly inconsistent - it is not the current one) summaries
     let oans: u8 = nd(); kani::assume(oans <= 2);
     let ohint: u8 = nd(); kani::assume(ohint <= 6);
-    let other_first: bool = nd(); let other_dropped: bool = nd();
-    let mk_other = || Dispatch::new(Rec { i: 1, ans: oans, hint: ohint, dynamic: nd() });
-    let (cur, other) = if other_first { let o = mk_other(); (Dispatch::new(Rec { i: 0, ans, hint, dynamic: false }), o) }
-                       else { let c = Dispatch::new(Rec { i: 0, ans, hint, dynamic: false }); (c, mk_other()) };
+    let other_dropped: bool = nd();
+    // the earlier collector is created first (its Dispatch::new sees no callsite yet), then the current one
+    let other = Dispatch::new(Rec { i: 1, ans: oans, hint: ohint, dynamic: false });
+    let cur = Dispatch::new(Rec { i: 0, ans, hint, dynamic: false });
     if other_dropped { drop(other); } else { core::mem::forget(other); }
     (cur, ans)
 }
